@@ -1,4 +1,5 @@
 import H2T.Lemmas.Select
+import H2T.Lemmas.ChildChain
 
 /-! # C20 — selectors match exactly the elements CSS says they match
 
@@ -54,5 +55,23 @@ example :
     let html : Frame := { isElem := true, name := "html", elemIdx := 1 }
     let doc : Frame := { isElem := false }
     selMatches { comps := [.elem "html", .child, .star] } [html, doc] = .no := by decide
+
+/-! ## repeated child combinators
+
+The grammar accepts `> > html` and `a > > b`.  `leading_child_chain` says what the first form means (an element named `B`
+with at least `k` ancestors, the parentless document node included) — the reference semantics of the harness's
+`child-chains` stream, which exists because a mutation of exactly this case was first judged unreachable. -/
+
+theorem leading_child_chain_semantics (b : String) (k : Nat) (node : Frame) (up : List Frame) (fuel : Nat) (hf : k + 2 ≤ fuel) :
+    doMatches (.elem b :: List.replicate k .child) (node :: up) fuel =
+      (if node.isElem && node.name = b then (if k ≤ up.length then .yes else .no) else .no) :=
+  leading_child_chain b k node up fuel hf
+
+/-- `> html` matches the root element, `> > html` does not: below the document node there is nothing to climb to -/
+example :
+    let html : Frame := { isElem := true, name := "html" }
+    let doc : Frame := { isElem := false }
+    doMatches [.elem "html", .child] [html, doc] 10 = .yes ∧ doMatches [.elem "html", .child, .child] [html, doc] 10 = .no := by
+  decide
 
 end H2T.C20
